@@ -53,6 +53,9 @@ func GenJWS(seed uint64, pool *Pool) *Plan {
 	if t != Ed25519 && r.Chance(1, 3) {
 		args["search"] = 300
 	}
+	if rh := r.Stream("hdr"); rh.Chance(1, 3) {
+		args["hdr"] = 1 + rh.Intn(len(jwsHeaderVariants))
+	}
 	p.Steps = append(p.Steps, Step{Op: SEnum, Name: "jws", Args: args})
 	return p
 }
